@@ -131,6 +131,10 @@ def get_constants(filename):
     constants = Constants(False)
     with open(filename) as f:
         data = json.load(f)
+    # rMin and rMax reset rp to the middle of the domain (also when they are
+    # set to their default values): a value given in the file is applied
+    # after them, whatever the order of the keys
+    rp = data.get('rp', None)
     unmatched = {}
     n = len(data)
     while (len(data) > 0):
@@ -149,6 +153,8 @@ def get_constants(filename):
         assert len(data) < n
         n = len(data)
     constants.set_defaults()
+    if (rp is not None):
+        constants.rp = eval_expr(rp, constants) if isinstance(rp, str) else rp
     if (constants.CN0 is None):
         constants.getCN0()
     return constants
